@@ -29,6 +29,8 @@ for meta in sorted((V / "seeded").glob("*/meta.json")):
     own_rules = sorted({x.split()[0] for x in det.get(own, [])})
     others = sorted(p for p in det if p != own and not p.startswith("<"))
     cell = (", ".join(own_rules) if own_rules else "**not reported by its own property**") + (f" (also {', '.join(others)})" if others else "")
+    if m.get("retired"):
+        cell = "*retired*: " + m["retired"][:160]
     first = m.get("first_run")
     if first is not None:
         cell += f"; first run: {first}"
